@@ -61,7 +61,11 @@ namespace options
 
             if (!is_value() && !is_double_dash())
             {
-                if (!std::regex_match(arg, std::regex("-{1,2}[^-=]+[^=]*=?.*")))
+                // one or two dashes followed by a name, which doesn't start with a dash. The value
+                // after the '=' can be anything.
+                auto dashes = name_.find_first_not_of('-');
+
+                if (dashes == std::string::npos || dashes > 2)
                 {
                     raise<parsing_error>("The user input couldn't be parsed. (", arg, ")");
                 }
